@@ -121,7 +121,26 @@ func c08TScenarios() []tScenario {
 			}
 		}}
 	}
+	twoLeaves := tScenario{Name: "leave||leave||gossip", Horizon: 15 * time.Second, Build: func(b *bubble) ([]tThread, func(map[string]string) (string, string, string)) {
+		n := tNode(b)
+		lt := func(name string) tThread {
+			return tThread{name, func() string {
+				err := n.M.Leave(2 * time.Second)
+				// what matters is the state of the world at the moment Leave returns
+				return fmt.Sprintf("%s sent=%v", errStr(err), sentDeparture(n))
+			}}
+		}
+		return []tThread{lt("leaveA"), lt("leaveB"), gossipThread(n, 12)}, func(res map[string]string) (string, string, string) {
+			for _, k := range []string{"leaveA", "leaveB"} {
+				if res[k] == "nil sent=false" {
+					return "leave-returned-nil-before-anything-was-announced", fmt.Sprintf("%s: %s", k, res[k]), resultsStr(res)
+				}
+			}
+			return "", "", resultsStr(res)
+		}
+	}}
 	return []tScenario{
+		twoLeaves,
 		mk("leave||suspect(self,own)||gossip", func(n *node, own uint32) { n.M.VSuspectNode(&ml.VSuspect{Incarnation: own, Node: "o", From: "p"}) }, false),
 		mk("leave||dead(self,own)||gossip", func(n *node, own uint32) { n.M.VDeadNode(&ml.VDead{Incarnation: own, Node: "o", From: "p"}) }, false),
 		mk("leave||suspect(self,own+3)||gossip", func(n *node, own uint32) {
@@ -148,6 +167,12 @@ func c02TScenarios() []tScenario {
 			out := fmt.Sprintf("self=%s i%d own=%d meta=%q", stateName(me.State), me.Incarnation, s.Incarnation, me.Meta)
 			if me.State != ml.StateAlive || !listed(n, "o") {
 				return "self-not-alive", out, out
+			}
+			// whatever the interleaving did, the next accusation at the advertised incarnation is outranked
+			adv := me.Incarnation
+			n.M.VSuspectNode(&ml.VSuspect{Incarnation: adv, Node: "o", From: "z"})
+			if me2 := findRec(n.M.VSnapshot(), "o"); me2.Incarnation <= adv || me2.State != ml.StateAlive {
+				return "refutation-not-above-claim", fmt.Sprintf("after the race an accusation at incarnation %d was answered with incarnation %d", adv, me2.Incarnation), out
 			}
 			// the highest-incarnation alive about self that was queued or sent carries the latest metadata
 			if want := lastMeta(); want != "" {
@@ -224,7 +249,8 @@ func c02TScenarios() []tScenario {
 
 // two conflicting claims about x on two threads: the end state must equal one
 // of the two sequential results; the event log must stay a faithful log.
-func c01TScenarios() []tScenario {
+func c01TScenarios(eventFirst ...bool) []tScenario {
+	evFirst := len(eventFirst) > 0 && eventFirst[0]
 	type claim struct {
 		name string
 		f    func(n *node)
@@ -241,21 +267,37 @@ func c01TScenarios() []tScenario {
 		{"dead(x,1)", func(n *node) { n.M.VDeadNode(&ml.VDead{Incarnation: 1, Node: "x", From: "t"}) }},
 		{"left(x,1)", func(n *node) { n.M.VDeadNode(&ml.VDead{Incarnation: 1, Node: "x", From: "x"}) }},
 		{"reap", func(n *node) { n.M.VResetNodes() }},
+		{"alive(new y,m=a)", func(n *node) {
+			n.M.VAliveNode(&ml.VAlive{Incarnation: 1, Node: "y", Addr: ip4(11), Port: 7946, Meta: []byte("a"), Vsn: defaultVsn}, nil, false)
+		}},
+		{"pushpull alive(new y,m=b)", func(n *node) {
+			n.M.VMergeState([]ml.VPushNodeState{{Name: "y", Addr: ip4(11), Port: 7946, Meta: []byte("b"), Incarnation: 1, State: ml.StateAlive, Vsn: defaultVsn}})
+		}},
 	}
 	prep := func(b *bubble) (*node, *c07mon) {
 		mon := &c07mon{set: map[string]string{}}
-		n := tNode(b, func(c *ml.Config) { c.Events.(*eventRec).hook = mon.onEvent })
+		n := tNode(b, func(c *ml.Config) { c.Events.(*eventRec).hook = mon.onEvent; c.Alive = &aliveRec{} })
 		mon.m = n.M
 		n.M.VAliveNode(&ml.VAlive{Incarnation: 1, Node: "x", Addr: ip4(9), Port: 7946, Meta: []byte("m1"), Vsn: defaultVsn}, nil, false)
 		advance(time.Microsecond)
 		return n, mon
 	}
 	xState := func(n *node) string {
-		r := findRec(n.M.VSnapshot(), "x")
-		if r == nil {
-			return "absent"
+		out := ""
+		for _, nm := range []string{"x", "y"} {
+			r := findRec(n.M.VSnapshot(), nm)
+			if r == nil {
+				out += nm + ":absent "
+				continue
+			}
+			meta := string(r.Meta)
+			if nm == "y" {
+				meta = "*" // either claim's metadata is a legal serial outcome only in its own order: compared through the serial results
+				meta = string(r.Meta)
+			}
+			out += fmt.Sprintf("%s:%s i%d @%s m=%q timer=%v ", nm, stateName(r.State), r.Incarnation, hostPort(r.Addr, r.Port), meta, r.HasTimer)
 		}
-		return fmt.Sprintf("%s i%d @%s m=%q timer=%v", stateName(r.State), r.Incarnation, hostPort(r.Addr, r.Port), r.Meta, r.HasTimer)
+		return out + fmt.Sprintf("members=%v order=%d", memberNames(n.M), len(n.M.VSnapshot().Order))
 	}
 	var out []tScenario
 	for i := range claims {
@@ -278,7 +320,7 @@ func c01TScenarios() []tScenario {
 				n, mon := prep(b)
 				return []tThread{{"A", func() string { a.f(n); return "ok" }}, {"B", func() string { c.f(n); return "ok" }}}, func(res map[string]string) (string, string, string) {
 					got := xState(n)
-					if got != s1 && got != s2 {
+					if !evFirst && got != s1 && got != s2 {
 						return "not-serializable", fmt.Sprintf("end state %s is neither %s (A;B) nor %s (B;A)", got, s1, s2), got
 					}
 					if n.Ev.MaxConc > 1 {
@@ -294,8 +336,11 @@ func c01TScenarios() []tScenario {
 							return "event-log:members-meta-without-event", m.Name, got
 						}
 					}
-					if len(names) != len(mon.set) {
-						return "event-log:members-changed-without-event", fmt.Sprintf("Members %v, log %v", names, mon.set), got
+					if len(names) != len(mon.set) || len(names) != len(n.M.Members()) {
+						return "event-log:members-changed-without-event", fmt.Sprintf("Members %v, log %v", memberNames(n.M), mon.set), got
+					}
+					if got != s1 && got != s2 {
+						return "not-serializable", fmt.Sprintf("end state %s is neither %s (A;B) nor %s (B;A)", got, s1, s2), got
 					}
 					return "", "", got
 				}
@@ -445,7 +490,10 @@ func c09TScenarios() []tScenario {
 						}
 						before := tn.M.VSnapshot()
 						return []tThread{
-								{"join", func() string { n, err := p.s.M.Join([]string{string(p.r.Addr)}); return fmt.Sprintf("%d/%v", n, err == nil) }},
+								{"join", func() string {
+									n, err := p.s.M.Join([]string{string(p.r.Addr)})
+									return fmt.Sprintf("%d/%v", n, err == nil)
+								}},
 								{"gossip", func() string { tn.T.Deliver(g.buf(), simAddr("10.0.0.9:7946")); return "ok" }},
 							}, func(res map[string]string) (string, string, string) {
 								settle()
